@@ -75,7 +75,7 @@ auto d2_fog(const JfT & Jf, const HfT & Hf, const JgT & Jg, const HgT & Hg)
 
   for (auto i = 0u; i < Jf.outerSize(); ++i) {
     for (Eigen::InnerIterator it(Jf, i); it; ++it) {
-      ret.template block<Nx, Nx>(0, it.row() * nx) += it.value() * Hg.template middleCols<Nx>(it.col() * nx, nx);
+      ret.template block<Nx, Nx>(0, it.row() * nx, nx, nx) += it.value() * Hg.template middleCols<Nx>(it.col() * nx, nx);
     }
   }
 
